@@ -455,6 +455,9 @@ type c03ParkCase struct {
 	WriterBuf int
 	// FailRelease: the parked write fails when it is released (the transport was closed under it)
 	FailRelease bool
+	// stream options that are off by default
+	ManualFlush bool
+	MaxBuf      int
 }
 
 func runC03Parked(c c03ParkCase) (r pbt.Result) {
@@ -467,7 +470,7 @@ func runC03Parked(c c03ParkCase) (r pbt.Result) {
 		wbuf = 1
 	}
 	wr := drpcwire.NewWriter(sk, wbuf)
-	st := drpcstream.NewWithOptions(context.Background(), sid, wr, drpcstream.Options{SplitSize: c.Split})
+	st := drpcstream.NewWithOptions(context.Background(), sid, wr, drpcstream.Options{SplitSize: c.Split, ManualFlush: c.ManualFlush, MaximumBufferSize: c.MaxBuf})
 	type call struct {
 		op  Op
 		res *callResult
@@ -679,6 +682,9 @@ func runC03Parked(c c03ParkCase) (r pbt.Result) {
 	if c.FailRelease {
 		r.Label("parked_write_failed")
 	}
+	if c.ManualFlush {
+		r.Label("manual_flush")
+	}
 	if termAt >= 0 {
 		r.Label("terminated")
 		if parkedAtTerm {
@@ -697,6 +703,8 @@ func TestC03Parked(t *testing.T) {
 		c.ReleaseAt = rapid.IntRange(1, 12).Draw(t, "release")
 		c.WriterBuf = rapid.SampledFrom([]int{1, 1, 64, 4096}).Draw(t, "wbuf")
 		c.FailRelease = rapid.IntRange(0, 2).Draw(t, "failrelease") == 0
+		c.ManualFlush = rapid.IntRange(0, 3).Draw(t, "manualflush") == 0
+		c.MaxBuf = rapid.SampledFrom([]int{0, 0, 1, 16}).Draw(t, "maxbuf")
 		return c
 	}
 	pbt.Check(t, pbt.Prop[c03ParkCase]{ID: "C03", Name: "parked", Gen: gen, Run: runC03Parked})
